@@ -44,11 +44,13 @@ place in a slice", "keep an essential hypothesis stated outside a block …"), b
   `Pi2/Gen/MMAst.lean`) are the hand-written model (`Pi2/MM/AstTie.lean`): `parse_database` = `parseDb` on every token list;
   the strings the `Encoder` writes, split at the ignored characters, = `printDb`; hence printing a parsed database and parsing
   the text again gives the same database, for the translated functions.  Outside: lark's lexer / LALR(1) parser.
-* `print_parse_real_text`, `printer_text_is_tokens`, `printer_drops_blank_label` (`Pi2/MM/AstText.lean`): the same for the TEXT that
-  `Printer` (utils/printer.py; hand-written model `MMAstSup.Printer`, compared with the real text character by character by the
-  check) makes of the `Encoder`'s calls — for lexemes that do not END in a character Python's `str.isspace` accepts.  Without
-  that hypothesis the sentence is FALSE: `'\xa0 $a x $.'` parses (label `'\xa0'`), is printed as `'$a x $.'` — the label is taken
-  for indentation and dropped — and does not re-parse.
+* `print_parse_real_text`, `printer_text_is_tokens`, `printer_keeps_blank_label`, `old_printer_dropped_blank_label`
+  (`Pi2/MM/AstText.lean`): the same for the TEXT that `Printer` (utils/printer.py as repaired by 5aefd01; hand-written model
+  `MMAstSup.Printer`, compared with the real text character by character by the check) makes of the `Encoder`'s calls — for
+  every token list of lexemes.  `Printer` as such still `rstrip`s the last string of every line (`printer_text_is_tokens` states the
+  exact condition under which that is harmless); the `Encoder` ends a line only by writing `'\n'` itself, so for a parsed database
+  the string `rstrip` sees is always `''`.  Before 5aefd01 the sentence was FALSE: `'\xa0 $a x $.'` parsed (label `'\xa0'`), was
+  printed as `'$a x $.'` — the label, whitespace for `str.isspace`, was taken for indentation and dropped — and did not re-parse.
 -/
 namespace C17
 open MM
@@ -273,44 +275,68 @@ theorem print_parse_text_nonvacuous :
     Gen.MMAst.parse_database 6 ["x", "$a", "(", "a", ")", "$."] = none ∧ Gen.MMAst.parse_database 2 ["$c", "$."] = none :=
   ⟨AstTie.exToks_lex, AstTie.ex_parse, AstTie.ex_roundtrip.1, AstTie.ex_rejects.1, AstTie.ex_rejects.2⟩
 
-/-- **`Printer` does not change the tokens** (model `MMAstSup.Printer` of utils/printer.py): when `tab` consists of characters
-the grammar ignores and the trailing Python-whitespace of every line of every written string is ignored by the grammar too
-(`AstText.callsOK`), the text `Printer` produces from the calls is lexed to the same tokens as the concatenation of the written
-strings; and the calls of the translated `Encoder` for a database of the model satisfy this and never fail (`AstText.Good`)
-when every string of the database is an `AstText.Tok` -/
+/-- **`Printer` does not change the tokens** (model `MMAstSup.Printer` of utils/printer.py as repaired by 5aefd01): when `tab`
+consists of characters the grammar ignores, every line that a written string ends with a newline (`AstText.callsOK`) and the last
+line written (`AstText.lastLineOf`) has no trailing Python-whitespace that the grammar does not ignore (`AstText.fragOK`: `flush`
+`rstrip`s it), the text `Printer` produces from the calls is lexed to the same tokens as the concatenation of the written strings;
+the calls of the translated `Encoder` for a database of the model satisfy this and never fail (`AstText.Good`) whenever the strings of
+the database are lexemes, and the last line it writes is empty; the condition is needed for `Printer` as such
+(`write('x\xa0\ny')` prints `x\ny`) -/
 theorem printer_text_is_tokens :
-    (∀ (tab : String) (cs : List MMAstSup.PCall), AstText.WsOnly tab.toList → AstText.callsOK cs → ∀ text,
+    (∀ (tab : String) (cs : List MMAstSup.PCall), AstText.WsOnly tab.toList → AstText.callsOK cs →
+      AstText.fragOK (AstText.lastLineOf cs []) = true → ∀ text,
       MMAstSup.printerText tab cs = some text → AstTie.lexTokens text = AstTie.lexTokens (MMAstSup.written cs)) ∧
-    (∀ (self : Gen.MMAst.Encoder), self.omit_proof = false → ∀ (db : MDb), (∀ x ∈ printDb db, AstText.Tok x) →
+    (∀ (self : Gen.MMAst.Encoder), self.omit_proof = false → ∀ (db : MDb), (∀ x ∈ printDb db, AstTie.Lex x) →
       AstText.Good (Gen.MMAst.encode self (AstTie.ofDb db))) ∧
-    AstText.WsOnly Gen.MMAst.Encoder.new.tab.toList :=
-  ⟨AstText.printer_tokens, fun self ho db h => AstText.encode_calls_ok self ho db h, AstText.default_tab_ws⟩
+    (∀ (self : Gen.MMAst.Encoder) (db : Gen.MMAst.Database),
+      AstText.fragOK (AstText.lastLineOf (Gen.MMAst.encode self db) []) = true) ∧
+    AstText.WsOnly Gen.MMAst.Encoder.new.tab.toList ∧
+    (MMAstSup.printerText "   " [.write "x\u00a0\ny"] = some "x\ny".toList ∧ AstText.linesOK "x\u00a0\ny" = false ∧
+      AstTie.lexTokens "x\ny".toList ≠ AstTie.lexTokens (MMAstSup.written [.write "x\u00a0\ny"])) :=
+  ⟨AstText.printer_tokens, fun self ho db h => AstText.encode_calls_ok self ho db h, AstText.encode_last_line,
+    AstText.default_tab_ws, AstText.printer_rstrip_residual⟩
 
 /-- **C17, first sentence, down to the characters `Printer` outputs**: translated parser, translated `Encoder`, `Printer` model.
-`toks`: lexemes that do not end in a character `str.isspace` accepts (`AstText.Tok`) -/
+`toks`: lexemes (`AstTie.Lex`: non-empty, without characters the lexer ignores) — nothing else is assumed of them -/
 theorem print_parse_real_text (F : Nat) (toks : List String) (db : Gen.MMAst.Database) (self : Gen.MMAst.Encoder)
-    (ho : self.omit_proof = false) (htab : AstText.WsOnly self.tab.toList) (htok : ∀ t ∈ toks, AstText.Tok t)
+    (ho : self.omit_proof = false) (htab : AstText.WsOnly self.tab.toList) (hlex : ∀ t ∈ toks, AstTie.Lex t)
     (hF : toks.length ≤ F) (h : Gen.MMAst.parse_database F toks = some db) :
     ∃ text, MMAstSup.printerText self.tab (Gen.MMAst.encode self db) = some text ∧ AstTie.lexTokens text = toks ∧
       Gen.MMAst.parse_database F (AstTie.lexTokens text) = some db :=
-  AstText.print_parse_real_text F toks db self ho htab htok hF h
+  AstText.print_parse_real_text F toks db self ho htab hlex hF h
 
-/-- the hypothesis `AstText.Tok` cannot be dropped: the tokens of `'\xa0 $a x $.'` are lexemes, the translated parser accepts them,
-the printed text is `'$a x $.\n'` (the label is gone) and is rejected (the real code behaves the same: `UnexpectedToken`) -/
-theorem printer_drops_blank_label :
-    (∀ t ∈ AstText.cexToks, AstTie.Lex t) ∧ Gen.MMAst.parse_database 4 AstText.cexToks = some (AstTie.ofDb AstText.cexDb) ∧
-    MMAstSup.printerText Gen.MMAst.Encoder.new.tab (Gen.MMAst.encode Gen.MMAst.Encoder.new (AstTie.ofDb AstText.cexDb)) =
+/-- regression for the defect repaired by 5aefd01: the tokens of `'\xa0 $a x $.'` (label: a no-break space) are lexemes, the
+translated parser accepts them, the printed text is `'\xa0 $a x $.\n'`, which is lexed to the same tokens and parsed to the same
+database; the same for the label `'\x0b'` on a continuation line inside a block -/
+theorem printer_keeps_blank_label :
+    ((∀ t ∈ AstText.cexToks, AstTie.Lex t) ∧ Gen.MMAst.parse_database 4 AstText.cexToks = some (AstTie.ofDb AstText.cexDb) ∧
+      MMAstSup.printerText Gen.MMAst.Encoder.new.tab (Gen.MMAst.encode Gen.MMAst.Encoder.new (AstTie.ofDb AstText.cexDb)) =
+        some "\u00a0 $a x $.\n".toList ∧
+      AstTie.lexTokens "\u00a0 $a x $.\n".toList = AstText.cexToks ∧
+      Gen.MMAst.parse_database 4 (AstTie.lexTokens "\u00a0 $a x $.\n".toList) = some (AstTie.ofDb AstText.cexDb)) ∧
+    ((∀ t ∈ AstText.cexToks2, AstTie.Lex t) ∧ Gen.MMAst.parse_database 10 AstText.cexToks2 = some (AstTie.ofDb AstText.cexDb2) ∧
+      MMAstSup.printerText Gen.MMAst.Encoder.new.tab (Gen.MMAst.encode Gen.MMAst.Encoder.new (AstTie.ofDb AstText.cexDb2)) =
+        some "${ l $a a $.\n   \x0b $a b $. $}\n".toList ∧
+      AstTie.lexTokens "${ l $a a $.\n   \x0b $a b $. $}\n".toList = AstText.cexToks2) :=
+  ⟨AstText.printer_keeps_blank_label, AstText.printer_keeps_blank_label_in_block⟩
+
+/-- the defect as it was: with the `str.isspace` test of `Printer.is_line_buffer_empty` before 5aefd01 (`MMAstSup.printerTextOld`) the
+two databases were printed as `'$a x $.\n'` and `'${ l $a a $.\n   $a b $. $}\n'` — the labels gone; three tokens, rejected -/
+theorem old_printer_dropped_blank_label :
+    MMAstSup.printerTextOld Gen.MMAst.Encoder.new.tab (Gen.MMAst.encode Gen.MMAst.Encoder.new (AstTie.ofDb AstText.cexDb)) =
       some "$a x $.\n".toList ∧
-    AstTie.lexTokens "$a x $.\n".toList = ["$a", "x", "$."] ∧ Gen.MMAst.parse_database 4 ["$a", "x", "$."] = none ∧
-    AstText.tokB "\u00a0" = false :=
-  AstText.printer_drops_blank_label
+    MMAstSup.printerTextOld Gen.MMAst.Encoder.new.tab (Gen.MMAst.encode Gen.MMAst.Encoder.new (AstTie.ofDb AstText.cexDb2)) =
+      some "${ l $a a $.\n   $a b $. $}\n".toList ∧
+    AstTie.lexTokens "$a x $.\n".toList = ["$a", "x", "$."] ∧ Gen.MMAst.parse_database 4 ["$a", "x", "$."] = none :=
+  AstText.old_printer_dropped_blank_label
 
 end C17
 
 #print axioms C17.slice_verifies
 #print axioms C17.printer_text_is_tokens
 #print axioms C17.print_parse_real_text
-#print axioms C17.printer_drops_blank_label
+#print axioms C17.printer_keeps_blank_label
+#print axioms C17.old_printer_dropped_blank_label
 #print axioms C17.parser_text_is_the_model
 #print axioms C17.encoder_text_is_the_model
 #print axioms C17.print_parse_text
